@@ -17,6 +17,7 @@ import QModel.SerialIO
 import QModel.ResultsDictIO
 import QModel.FBDriverIO
 import QModel.LogTableIO
+import QModel.ArrayNamesIO
 /-! Model driver: one operation per line on stdin, one canonical result line on stdout.
     Run with `lake env lean --run Driver.lean`. -/
 
@@ -43,6 +44,7 @@ def dispatch (line : String) : String :=
     else if cmd.startsWith "c08." || cmd.startsWith "c07." then Ser.IO.handle ws
     else if cmd = "fbd" then FBD.IO.handle ws
     else if cmd = "logt" then LogT.IO.handle ws
+    else if cmd = "arrn" then ArrN.IO.handle ws
     else "bad-op"
 
 partial def loop (h : IO.FS.Stream) (out : IO.FS.Stream) : IO Unit := do
